@@ -379,7 +379,7 @@ def run(chk):
     chk.rule('R1d', 'instance() keeps no state besides the instance pointer', 2)
     chk.rule('R2a', 'thread-starting sub-object initialised after the captured flag', 2)
     chk.rule('R2b', 'flag is std::atomic', 2)
-    chk.rule('R2c', 'flag set/cleared around the user function on every normal path', 2)
+    chk.rule('R2c', 'flag set/cleared around the user function on every normal path', 4)
     chk.rule('R2d', 'isActive() reads the flag through the atomic', 1)
     chk.rule('R2e', 'the destructor joins a joinable thread and never detaches', 2)
     chk.rule('R2f', 'release/acquire pairing of the active flag', 3)
